@@ -544,3 +544,53 @@ Theorem late_entry_empty calls ls a :
 Proof.
   intros c XD. apply rel_empty_late; [apply cinv_crun| |]; rewrite XD; simpl; tauto.
 Qed.
+
+(* ---------- notifications at the linearization point ---------- *)
+(* join: the step that inserts the accepted actors is the step that clones the group's
+   listeners; the Join for exactly these actors goes to exactly these listeners *)
+Theorem join_commit_point t c k kept acc stopped :
+  let joined := filter (fun a => nmem a acc) kept in
+  let lis := lis_of (c_pg c) k in
+  let c' := snd (tstep t (JCommit k kept acc stopped) c) in
+  fst (tstep t (JCommit k kept acc stopped) c) = JS k joined lis stopped /\
+  (forall a, In a (mem_of (c_pg c') k) <-> In a (mem_of (c_pg c) k) \/ In a joined) /\
+  (forall c2, tstep_evs (JN k joined lis) c2 = notify_list lis true (fst k) (snd k) joined) /\
+  (forall c2, tstep_evs (JW1 k joined) c2 = notify_list (world_of (c_pg c2) (fst k)) true (fst k) (snd k) joined) /\
+  (forall c2, tstep_evs (JW2 k joined) c2 = notify_list (world_of (c_pg c2) WORLD) true (fst k) (snd k) joined).
+Proof.
+  intros joined lis c'. repeat split; auto.
+  - unfold c'. simpl. fold joined. destruct (null joined); unfold mem_of, gs_of; simpl; rewrite kupd_eq; simpl;
+      intros H; apply In_fold_nadd in H; exact H.
+  - unfold c'. simpl. fold joined. destruct (null joined); unfold mem_of, gs_of; simpl; rewrite kupd_eq; simpl;
+      intros H; apply In_fold_nadd; exact H.
+Qed.
+
+(* if every actor of the call was accepted and is still alive when the section commits, and
+   the world listeners are read in that same state, these are exactly the atomic model's events *)
+Theorem join_events_as_atomic g s g0 kept :
+  kept <> [] -> (forall a, In a kept -> p_dead g a = false) ->
+  snd (join g s g0 kept)
+  = notify_list (lis_of g (s, g0)) true s g0 kept ++ notify_list (world_of g s) true s g0 kept
+    ++ notify_list (world_of g WORLD) true s g0 kept.
+Proof.
+  intros NE AL.
+  assert (E : filter (fun a => negb (p_dead g a)) kept = kept).
+  { clear NE. induction kept as [|a l IH]; simpl; auto. rewrite (AL a); [|left; auto]. simpl.
+    rewrite IH; auto. intros b Hb. apply AL. right; auto. }
+  unfold join. rewrite E. destruct kept; [congruence|]. simpl null. cbv iota.
+  unfold snd. unfold notify_world, lis_of, world_of. simpl. rewrite app_nil_r. reflexivity.
+Qed.
+
+(* leave: the final step of the entry section clones the listeners; the Leave goes to them *)
+Theorem leave_commit_point t c k acts :
+  fst (tstep t (LL k acts []) c) = LN k acts (lis_of (c_pg c) k) /\
+  (forall c2, tstep_evs (LN k acts (lis_of (c_pg c) k)) c2 = notify_list (lis_of (c_pg c) k) false (fst k) (snd k) acts).
+Proof. split; reflexivity. Qed.
+
+(* exit: a removal event (one Leave batch) is recorded for a key exactly when the actor was
+   still a member of that group when leave_all visited the entry, with the listeners of that state *)
+Theorem exit_batch_point a c k todo evs :
+  free c k = true ->
+  fst (xstep a (XL (k :: todo) evs) c)
+  = XL todo (evs ++ if nmem a (mem_of (c_pg c) k) then [(k, lis_of (c_pg c) k)] else []).
+Proof. intros F. simpl. rewrite F. reflexivity. Qed.
